@@ -3,11 +3,11 @@
 
 import stages
 
-TRACE_FAMILIES = ["send", "recv", "lifecycle", "connect", "caps", "keepalive"]
+TRACE_FAMILIES = ["send", "recv", "lifecycle", "connect", "caps", "keepalive", "crash"]
 
 # scenarios per family
-SIZES = dict(quick=dict(send=1600, recv=1200, lifecycle=1200, connect=900, caps=900, keepalive=700),
-             thorough=dict(send=40000, recv=25000, lifecycle=25000, connect=15000, caps=12000, keepalive=12000))
+SIZES = dict(quick=dict(crash=1, send=1600, recv=1200, lifecycle=1200, connect=900, caps=900, keepalive=700),
+             thorough=dict(crash=100000, send=40000, recv=25000, lifecycle=25000, connect=15000, caps=12000, keepalive=12000))
 
 TRACE_ASSUME = [
     "the simulated broker/network of harness/ (conformant MQTT 5 broker, transport faults only) stands for the environment",
